@@ -204,6 +204,35 @@ theorem mem_find_iff (a b : Surface) (S : List Surface) (tol : Rat) (ha : WFSurf
   · simp
 
 
+theorem find_subset {a b : Surface} {S : List Surface} {tol : Rat} (h : b ∈ findDuplicateSurfaces a S tol) : b ∈ S := by
+  unfold findDuplicateSurfaces at h
+  split at h
+  · unfold axisPlaneFind at h
+    split at h
+    · exact (List.mem_filter.1 h).1
+    · cases h
+  · unfold cylinderOnAxisFind at h
+    split at h
+    · exact (List.mem_filter.1 h).1
+    · cases h
+  · unfold cylinderParAxisFind at h
+    split at h
+    · exact (List.mem_filter.1 h).1
+    · cases h
+  · cases h
+  · cases h
+
+theorem nodup_map_inj {α : Type} (f : α → Nat) : ∀ {l : List α}, (l.map f).Nodup → ∀ {a b : α}, a ∈ l → b ∈ l →
+    f a = f b → a = b
+  | [], _, _, _, ha, _, _ => by cases ha
+  | x :: xs, hnd, a, b, ha, hb, e => by
+    rw [List.map_cons, List.nodup_cons] at hnd
+    rcases List.mem_cons.1 ha with rfl | ha' <;> rcases List.mem_cons.1 hb with rfl | hb'
+    · rfl
+    · exact absurd (List.mem_map.2 ⟨b, hb', e.symm⟩) hnd.1
+    · exact absurd (List.mem_map.2 ⟨a, ha', e⟩) hnd.1
+    · exact nodup_map_inj f hnd.2 ha' hb' e
+
 /-! ## B. the first loop -/
 
 theorem lookup_cons_if (k' a b : Nat) (es : List (Nat × Nat)) :
